@@ -305,7 +305,7 @@ def r_write(seq, cls: str, opts, entry: str = "stream_frames_gen", bindings=()) 
         rser.flat_stream_to_file((s for s in stmts), out)
         return out.getvalue()
     g = r_graph(seq, bindings, EMPTY_GRAPHS if entry.endswith("+empty") else ())
-    entry = entry.split("+")[0]
+    entry = entry.split("+")[0]  # ("+ns": the caller's options ask for declarations)
     if entry == "stream_frames_graph":
         return frames_to_bytes(rser.stream_frames(r_stream(cls, opts), g), delimited)
     if entry == "graph_serialize_stream":
